@@ -1,6 +1,11 @@
 import ExprModel.Drv.Arith
 import ExprModel.Drv.Code
+import ExprModel.Drv.Lex
+import ExprModel.Drv.Source
 import ExprModel.Drv.Spec
+import ExprModel.Drv.SrcDefects
+import ExprModel.Drv.Types
+import ExprModel.Drv.Walk
 import ExprModel.Drv.Wf
 /-
 The model driver: one request per line on stdin (an S-expression `(tag arg…)`), one response per line
@@ -10,7 +15,15 @@ when a proof breaks.  Each `ExprModel/Drv/*.lean` exports a handler table; add y
 open ExprModel
 
 def handlers : List (String × (List Sexp → Sexp)) :=
-  Drv.arithHandlers ++ Drv.codeHandlers ++ Drv.specHandlers ++ Drv.wfHandlers
+  Drv.arithHandlers ++
+  Drv.codeHandlers ++
+  Drv.specHandlers ++
+  Drv.wfHandlers ++
+  Drv.sourceHandlers ++
+  Drv.lexHandlers ++
+  Drv.walkHandlers ++
+  Drv.typesHandlers ++
+  Drv.srcDefectsHandlers
 
 def dispatch (req : Sexp) : Sexp :=
   match req with
